@@ -9,6 +9,9 @@ import IsoDT.Model.Duration
 import IsoDT.Model.LocalTZ
 import IsoDT.Model.Recurrence
 import IsoDT.Model.Truncated
+import IsoDT.Driver.Text
+import IsoDT.Driver.DurText
+import IsoDT.Driver.Cli
 
 open IsoDT IsoDT.Model
 open IsoDT.Spec (Date TZ TP)
@@ -309,6 +312,9 @@ def tpOps : List String := ["add", "sub", "addmonths", "tick", "tz", "hash", "ha
     `dispatch : List String → Option String` (none = not my op); chain them here with `<|>`. -/
 def extDispatch (toks : List String) : Option String :=
   (none : Option String)
+  <|> IsoDT.Driver.Cli.dispatch toks
+  <|> IsoDT.Driver.DurText.dispatch toks
+  <|> IsoDT.Driver.Text.dispatch toks
   -- <|> IsoDT.Driver.Foo.dispatch toks
 
 def dispatch (toks : List String) : String :=
